@@ -6,7 +6,10 @@
 //	         exported unrolled encrypt/decrypt on ONE instance (scratch buffers carried over)
 //	           op = (0 seed len) Encrypt(lcg)  (1 j 0) Decrypt(output of op j)  (2 seed len) Decrypt(lcg)
 //	         (1 key iv seed len)   salsa20 via NewCrypt;  (2 seed len)  none via NewCrypt
-//	observed = (panicked (out ...)) | (keystream enc dec) | (enc dec)
+//	         (3 name key iv ((seed len) ...))  a cipher made by the factory NewCrypt(name, key, iv):
+//	            the messages are encrypted in order on one instance and decrypted in reverse
+//	            order on a second one; ref = crypto/cipher CFB (salsa20.XORKeyStream, identity)
+//	observed = (panicked (out ...)) | (keystream enc dec) | (enc dec) | (panicked ((enc dec ref) ...))
 //
 // Go-side sweep (out.GoChecked / out.Violation): every factory name against crypto/cipher's
 // CFB with the same key and the first block of the IV, round trip, decryption out of order
@@ -98,8 +101,84 @@ func run(in Sx) Sx {
 			dec = append([]byte{}, a.Decrypt(append([]byte(nil), enc...))...)
 		})
 		return List(Bytes(enc), Bytes(dec))
+	case 3:
+		return runFactory(in)
 	}
 	return List()
+}
+
+// reference for a factory name: crypto/cipher CFB over an independently constructed block
+// keyed with the first block of the IV; salsa20.XORKeyStream; identity.
+func reference(name string, key, iv, msg []byte) ([]byte, error) {
+	want := make([]byte, len(msg))
+	switch name {
+	case "salsa20":
+		var k32 [32]byte
+		var nonce [8]byte
+		copy(k32[:], key)
+		copy(nonce[:], iv)
+		salsa20.XORKeyStream(want, msg, nonce[:], &k32)
+		return want, nil
+	case "none":
+		copy(want, msg)
+		return want, nil
+	}
+	mk := refBlocks["aes-256"] // the factory's default branch
+	if f, ok := refBlocks[name]; ok {
+		mk = f
+	}
+	blk, err := mk(key)
+	if err != nil {
+		return nil, err
+	}
+	if len(iv) < blk.BlockSize() {
+		return nil, fmt.Errorf("iv shorter than a block")
+	}
+	stdcipher.NewCFBEncrypter(blk, iv[:blk.BlockSize()]).XORKeyStream(want, msg)
+	return want, nil
+}
+
+var refBlocks = map[string]func(k []byte) (stdcipher.Block, error){
+	"aes-128": func(k []byte) (stdcipher.Block, error) { return aes.NewCipher(k[:16]) },
+	"aes-192": func(k []byte) (stdcipher.Block, error) { return aes.NewCipher(k[:24]) },
+	"aes-256": func(k []byte) (stdcipher.Block, error) { return aes.NewCipher(k[:32]) },
+	"sm4":     func(k []byte) (stdcipher.Block, error) { return sm4.NewCipher(k[:16]) },
+	"twofish": func(k []byte) (stdcipher.Block, error) { return twofish.NewCipher(k) },
+	"3des":    func(k []byte) (stdcipher.Block, error) { return des.NewTripleDESCipher(k[:24]) },
+	"xtea":    func(k []byte) (stdcipher.Block, error) { return xtea.NewCipher(k[:16]) },
+}
+
+func runFactory(in Sx) Sx {
+	name, key, iv := in.At(1).AsString(), in.At(2).AsBytes(), in.At(3).AsBytes()
+	specs := in.At(4)
+	n := specs.Len()
+	encs := make([][]byte, n)
+	decs := make([][]byte, n)
+	refs := make([][]byte, n)
+	panicked, _ := Catch(func() {
+		a := xcipher.NewCrypt(name, append([]byte(nil), key...), append([]byte(nil), iv...))
+		b := xcipher.NewCrypt(name, append([]byte(nil), key...), append([]byte(nil), iv...))
+		for i := 0; i < n; i++ {
+			msg := lcg(specs.At(i).At(0).Uint64(), specs.At(i).At(1).AsInt())
+			ref, err := reference(name, key, iv, msg)
+			if err != nil {
+				panic(err)
+			}
+			refs[i] = ref
+			encs[i] = append([]byte{}, a.Encrypt(append([]byte(nil), msg...))...)
+		}
+		for i := n - 1; i >= 0; i-- {
+			decs[i] = append([]byte{}, b.Decrypt(append([]byte(nil), encs[i]...))...)
+		}
+	})
+	if panicked {
+		return List(Bool(true), List())
+	}
+	obs := make([]Sx, n)
+	for i := range obs {
+		obs[i] = List(Bytes(encs[i]), Bytes(decs[i]), Bytes(refs[i]))
+	}
+	return List(Bool(false), ListOf(obs))
 }
 
 func runToy(in Sx) Sx {
@@ -146,6 +225,16 @@ func runToy(in Sx) Sx {
 type genState struct {
 	rng *Rng
 	out *Out
+}
+
+// at most 3 recorded violations per signature (Out keeps 50 in all)
+var violCount = map[string]int{}
+
+func violation(out *Out, sig, what string, c Sx) {
+	violCount[sig]++
+	if violCount[sig] <= 3 {
+		out.Violation(sig, what, c)
+	}
 }
 
 func opEnc(seed uint64, n int) Sx { return List(Int(0), Uint(seed), Int(int64(n))) }
@@ -252,7 +341,7 @@ func (g *genState) toyVsStdlib(in, obs Sx) {
 		}
 		g.out.GoChecked++
 		if !bytes.Equal(got, want) {
-			g.out.Violation(fmt.Sprintf("C16/stdlib-cfb/toy%d", bs), fmt.Sprintf("unrolled CFB over a toy %d-byte block differs from crypto/cipher CFB (op %d, length %d)", bs, i, len(src)), List(in, obs))
+			violation(g.out, fmt.Sprintf("C16/stdlib-cfb/toy%d", bs), fmt.Sprintf("unrolled CFB over a toy %d-byte block differs from crypto/cipher CFB (op %d, length %d)", bs, i, len(src)), List(in, obs))
 			return
 		}
 		// separate destination
@@ -266,7 +355,7 @@ func (g *genState) toyVsStdlib(in, obs Sx) {
 		})
 		g.out.GoChecked++
 		if p || !bytes.Equal(dst, want) {
-			g.out.Violation(fmt.Sprintf("C16/separate-dst/toy%d", bs), "encrypt/decrypt into a separate destination differs from the in-place result", List(in, obs))
+			violation(g.out, fmt.Sprintf("C16/separate-dst/toy%d", bs), "encrypt/decrypt into a separate destination differs from the in-place result", List(in, obs))
 			return
 		}
 	}
@@ -347,27 +436,37 @@ func gen(a Args, out *Out) {
 		in = List(Int(2), Uint(uint64(rng.Intn(1<<31))), Int(int64(n)))
 		out.Case("none", n > 0, in, run(in))
 	}
+	// ciphers made by the factory, as cases (real-cipher output travels as an oracle table)
+	nfac := 16
+	if a.Thorough() {
+		nfac = 160
+	}
+	for _, rc := range factoryNames {
+		for s := 0; s < nfac; s++ {
+			bs := 16
+			if rc.name == "3des" || rc.name == "xtea" {
+				bs = 8
+			}
+			k := rng.Range(1, 4)
+			var specs []Sx
+			nontrivial := false
+			for i := 0; i < k; i++ {
+				n := rng.PickInt(0, 1, bs-1, bs, bs+1, 7*bs+rng.Intn(bs), 8*bs-1, 8*bs, 8*bs+1, 16*bs, 17*bs+rng.Intn(bs), rng.Intn(30*bs))
+				nontrivial = nontrivial || n > 0
+				specs = append(specs, List(Uint(uint64(rng.Intn(1<<16))), Int(int64(n))))
+			}
+			in := List(Int(3), Str(rc.name), Bytes(rng.Bytes(32)), Bytes(rng.Bytes(rng.Range(16, 48))), ListOf(specs))
+			out.Case("factory", nontrivial, in, run(in))
+			out.Count("factory-case:" + rc.name)
+		}
+	}
 	factorySweep(a, out, rng.Fork())
 }
 
 // ---- Go-side sweep over the factory ----
 
-type refCipher struct {
-	name  string
-	block func(key []byte) (stdcipher.Block, error) // nil for salsa20 / none
-}
-
-var factoryNames = []refCipher{
-	{"aes-128", func(k []byte) (stdcipher.Block, error) { return aes.NewCipher(k[:16]) }},
-	{"aes-192", func(k []byte) (stdcipher.Block, error) { return aes.NewCipher(k[:24]) }},
-	{"aes-256", func(k []byte) (stdcipher.Block, error) { return aes.NewCipher(k[:32]) }}, // default branch
-	{"", func(k []byte) (stdcipher.Block, error) { return aes.NewCipher(k[:32]) }},        // default branch
-	{"sm4", func(k []byte) (stdcipher.Block, error) { return sm4.NewCipher(k[:16]) }},
-	{"twofish", func(k []byte) (stdcipher.Block, error) { return twofish.NewCipher(k) }},
-	{"3des", func(k []byte) (stdcipher.Block, error) { return des.NewTripleDESCipher(k[:24]) }},
-	{"xtea", func(k []byte) (stdcipher.Block, error) { return xtea.NewCipher(k[:16]) }},
-	{"salsa20", nil},
-	{"none", nil},
+var factoryNames = []struct{ name string }{
+	{"aes-128"}, {"aes-192"}, {"aes-256"}, {""}, {"sm4"}, {"twofish"}, {"3des"}, {"xtea"}, {"salsa20"}, {"none"},
 }
 
 func factorySweep(a Args, out *Out, rng *Rng) {
@@ -384,26 +483,19 @@ func factorySweep(a Args, out *Out, rng *Rng) {
 				ivlen = 16
 			}
 			iv := rng.Bytes(ivlen)
-			fail := func(what string, n int) {
-				out.Violation("C16/factory/"+rc.name+"/"+what, fmt.Sprintf("cipher %q, message length %d: %s", rc.name, n, what),
-					List(Str(rc.name), Bytes(key), Bytes(iv), Int(int64(n))))
+			prev := List(Uint(0), Int(0))
+			fail := func(what string, seed uint64, n int) {
+				// replayable: the message before the failing one and the failing one
+				in := List(Int(3), Str(rc.name), Bytes(key), Bytes(iv), List(prev, List(Uint(seed), Int(int64(n)))))
+				violation(out, "C16/factory/"+rc.name+"/"+what, fmt.Sprintf("cipher %q, message length %d: %s", rc.name, n, what), List(in, run(in)))
 			}
 			var enc, dec xcipher.BlockCryptor
 			if p, v := Catch(func() {
 				enc = xcipher.NewCrypt(rc.name, append([]byte(nil), key...), append([]byte(nil), iv...))
 				dec = xcipher.NewCrypt(rc.name, append([]byte(nil), key...), append([]byte(nil), iv...))
 			}); p {
-				fail(fmt.Sprintf("factory panics: %v", v), -1)
+				fail(fmt.Sprintf("factory panics: %v", v), 0, 0)
 				continue
-			}
-			var ref stdcipher.Block
-			if rc.block != nil {
-				b, err := rc.block(key)
-				if err != nil {
-					fail("reference cipher: "+err.Error(), -1)
-					continue
-				}
-				ref = b
 			}
 			// every length, in a shuffled order on the same pair of instances; the ciphertexts
 			// are kept and decrypted later in another order, some never (lost)
@@ -415,7 +507,10 @@ func factorySweep(a Args, out *Out, rng *Rng) {
 				j := rng.Intn(i + 1)
 				order[i], order[j] = order[j], order[i]
 			}
-			type pkt struct{ msg, ct []byte }
+			type pkt struct {
+				seed    uint64
+				msg, ct []byte
+			}
 			var pending []pkt
 			bad := false
 			flush := func() {
@@ -431,7 +526,7 @@ func factorySweep(a Args, out *Out, rng *Rng) {
 					pn, _ := Catch(func() { got = dec.Decrypt(append([]byte(nil), p.ct...)) })
 					out.GoChecked++
 					if pn || !bytes.Equal(got, p.msg) {
-						fail("decrypt(encrypt(m)) != m (out of order, after losses)", len(p.msg))
+						fail("decrypt(encrypt(m)) != m (out of order, after losses)", p.seed, len(p.msg))
 						bad = true
 						return
 					}
@@ -439,56 +534,49 @@ func factorySweep(a Args, out *Out, rng *Rng) {
 				pending = pending[:0]
 			}
 			for _, n := range order {
-				msg := rng.Bytes(n)
+				seed := uint64(rng.Intn(1 << 16))
+				msg := lcg(seed, n)
 				var ct []byte
 				pn, _ := Catch(func() { ct = append([]byte{}, enc.Encrypt(append([]byte(nil), msg...))...) })
 				out.GoChecked++
 				if pn {
-					fail("Encrypt panics", n)
+					fail("Encrypt panics", seed, n)
 					bad = true
 					break
 				}
 				if len(ct) != n {
-					fail("length changed", n)
+					fail("length changed", seed, n)
 					bad = true
 					break
 				}
-				switch {
-				case ref != nil:
-					bs := ref.BlockSize()
-					want := make([]byte, n)
-					stdcipher.NewCFBEncrypter(ref, iv[:bs]).XORKeyStream(want, msg)
-					back := make([]byte, n)
-					stdcipher.NewCFBDecrypter(ref, iv[:bs]).XORKeyStream(back, ct)
-					out.GoChecked += 2
-					if !bytes.Equal(ct, want) {
-						fail("ciphertext differs from crypto/cipher CFB with the first block of the IV", n)
-						bad = true
-					} else if !bytes.Equal(back, msg) {
-						fail("crypto/cipher CFB decrypter does not recover the message", n)
-						bad = true
-					}
-				case rc.name == "salsa20":
-					want := make([]byte, n)
-					var k32 [32]byte
-					copy(k32[:], key)
-					salsa20.XORKeyStream(want, msg, iv[:8], &k32)
-					out.GoChecked++
-					if !bytes.Equal(ct, want) {
-						fail("ciphertext differs from salsa20.XORKeyStream", n)
-						bad = true
-					}
-				default:
-					out.GoChecked++
-					if !bytes.Equal(ct, msg) {
-						fail("none cipher changed the message", n)
-						bad = true
-					}
-				}
-				if bad {
+				want, err := reference(rc.name, key, iv, msg)
+				out.GoChecked++
+				if err != nil {
+					fail("reference cipher: "+err.Error(), seed, n)
+					bad = true
 					break
 				}
-				pending = append(pending, pkt{msg, ct})
+				if !bytes.Equal(ct, want) {
+					fail("ciphertext differs from the stock implementation (crypto/cipher CFB with the first block of the IV / salsa20.XORKeyStream / identity)", seed, n)
+					bad = true
+					break
+				}
+				if f, ok := refBlocks[rc.name]; ok || (rc.name != "salsa20" && rc.name != "none") {
+					if !ok {
+						f = refBlocks["aes-256"]
+					}
+					blk, _ := f(key)
+					back := make([]byte, n)
+					stdcipher.NewCFBDecrypter(blk, iv[:blk.BlockSize()]).XORKeyStream(back, ct)
+					out.GoChecked++
+					if !bytes.Equal(back, msg) {
+						fail("crypto/cipher CFB decrypter does not recover the message", seed, n)
+						bad = true
+						break
+					}
+				}
+				prev = List(Uint(seed), Int(int64(n)))
+				pending = append(pending, pkt{seed, msg, ct})
 				if len(pending) >= 64 {
 					flush()
 					if bad {
@@ -502,7 +590,7 @@ func factorySweep(a Args, out *Out, rng *Rng) {
 			out.Count("factory-sweep:" + rc.name)
 		}
 	}
-	out.Note("Go-side sweep: %d factory names x every length 0..%d x %d key/IV round(s), vs crypto/cipher CFB (block ciphers), salsa20.XORKeyStream, identity; round trip in shuffled order with losses", len(factoryNames), maxLen, rounds)
+	out.Note("Go-side sweep: %d factory names x every length 0..%d x %d key/IV round(s), vs crypto/cipher CFB (block ciphers, both directions), salsa20.XORKeyStream, identity; round trip in shuffled order with losses", len(factoryNames), maxLen, rounds)
 }
 
 func main() {
